@@ -261,6 +261,12 @@ pub fn run(mut run: Run) -> i32 {
             }
         }
     }
+    // far-away scales (2^-30 ~ 1e-9 and 2^30 ~ 1e9, both exact): nothing may depend on an absolute size or an absolute epsilon
+    for (k, s, t) in [(0usize, 1.0 / 1073741824.0, (0.0, 0.0)), (3, 1073741824.0, (0.0, 0.0)), (6, 1.0 / 1073741824.0, (1.0 / 1024.0, 0.0))] {
+        let m = d4[k];
+        let refl = m[0] * m[3] - m[1] * m[2] < 0;
+        maps.push((AffineTransform::new(m[0] as f64 * s, m[1] as f64 * s, t.0, m[2] as f64 * s, m[3] as f64 * s, t.1), s, refl, format!("D4[{}] t={:?} s={:e}", k, t, s)));
+    }
     let sub: Vec<&Shape> = fam.iter().step_by(if quick { 3 } else { 1 }).collect();
     let ns = sub.len();
     let nmaps = maps.len();
@@ -338,7 +344,7 @@ pub fn run(mut run: Run) -> i32 {
             match (cen0, t.centroid()) {
                 (Some(c0), Some(c1)) => {
                     let e = m.apply(c0.0);
-                    if (e.x - c1.x()).abs() > 1e-9 || (e.y - c1.y()).abs() > 1e-9 {
+                    if (e.x - c1.x()).abs() > 1e-9 * s || (e.y - c1.y()).abs() > 1e-9 * s {
                         acc.viol("centroid is not equivariant under an exact similarity map".into(), idx, || wit(&format!("{:?} -> {:?}", c0, c1)));
                     }
                 }
@@ -369,6 +375,19 @@ pub fn run(mut run: Run) -> i32 {
                 };
                 if (l1 - l0 * s).abs() > 1e-12 * (1.0 + l0) * s {
                     acc.viol("length does not scale by the factor".into(), idx, || wit(&format!("{} -> {}", l0, l1)));
+                }
+            }
+            // simplification keeps the same vertex positions when the tolerance is scaled with the map (distance tolerance by s, area tolerance by s^2)
+            if let (Geometry::LineString(l0), Geometry::LineString(l1)) = (g, &t) {
+                use geo::{SimplifyIdx, SimplifyVwIdx};
+                for eps in [0.5, 1.0] {
+                    acc.evals += 2;
+                    if l0.simplify_idx(eps) != l1.simplify_idx(eps * s) {
+                        acc.viol("simplify_idx changes under an exact similarity map (tolerance scaled by s)".into(), idx, || wit(&format!("eps {} : {:?} vs {:?}", eps, l0.simplify_idx(eps), l1.simplify_idx(eps * s))));
+                    }
+                    if l0.simplify_vw_idx(eps) != l1.simplify_vw_idx(eps * s * s) {
+                        acc.viol("simplify_vw_idx changes under an exact similarity map (tolerance scaled by s^2)".into(), idx, || wit(&format!("eps {} : {:?} vs {:?}", eps, l0.simplify_vw_idx(eps), l1.simplify_vw_idx(eps * s * s))));
+                    }
                 }
             }
             if let (Some(w0), Geometry::Polygon(p)) = (wind0, &t) {
